@@ -584,8 +584,10 @@ def run(tier, seed, replay=None):
     for (ci, r), flat in zip(index, res):
         c, o = cases[ci], outs[ci]
         iv = C.ival_to_fracs(flat)
-        tag = f"{c['model']}/{c['mode']}/{c['scheme']}/grid={c['grid_style']}/n={'2-5' if c['n'] <= 5 else '6-12' if c['n'] <= 12 else '13-50'}"
-        dist[tag] = dist.get(tag, 0) + 1
+        for tag in (f"model={c['model']}/{c['mode']}", f"sampling={c['scheme']}", f"grid={c['grid_style']}",
+                    f"n={'2-5' if c['n'] <= 5 else '6-12' if c['n'] <= 12 else '13-50'}",
+                    f"thetas={c['variant']}", f"times={'full precision' if c['digits'] is None else 'decimal lattice'}"):
+            dist[tag] = dist.get(tag, 0) + 1
         rep.case(dict(c=c, r=r), nontrivial=c["n"] >= 3,
                  sample=dict(case=c, impl_log_prob=o["dist"], impl_model_call=o["json"],
                              model_enclosure=None if iv is None else [float(iv[0]), float(iv[1])]))
